@@ -49,12 +49,12 @@ type c02Template struct {
 	holes int
 	// minus/plus patterns and the candidate in the file, with %[1]s.. for the holes
 	minus, plus, file string
-	fill            [][]string // per hole: candidate fillers for the file
-	identOnly       []bool     // hole is a name-only position (pattern side: expression metavariables still allowed)
+	fill              [][]string // per hole: candidate fillers for the file
+	identOnly         []bool     // hole is a name-only position (pattern side: expression metavariables still allowed)
 }
 
 var (
-	c02ExprFill  = []string{"a", "(a)", "b.c", "b.c()", "g(1)", "1", `"s"`, "a + b", "x", "n", "q", "func() {}",
+	c02ExprFill = []string{"a", "(a)", "b.c", "b.c()", "g(1)", "1", `"s"`, "a + b", "x", "n", "q", "func() {}",
 		// pairs that differ only in a token go/ast encodes as position validity
 		"g(b...)", "g(b)", "func() { type T = int }", "func() { type T int }", "func() { var (\n\tv int\n) }", "func() { var v int }"}
 	c02IdentFill = []string{"a", "b", "x", "n", "q"}
